@@ -404,11 +404,32 @@ def c15_3(ctx: Ctx) -> RuleResult:
         pf = PathFinder(cfg, dataflow_of(ctx.repo, run))
         cname = run.cls.name if run.cls else run.name
         aborts = []
+        from ..util import always_exits
+
+        UA = ("global", "ropt.enums.OptimizerExitCode.USER_ABORT")
+
+        def has_abort(stmts):
+            return any(isinstance(c, ast.Call) and isinstance(c.func, ast.Attribute) and c.func.attr == "abort" for s in stmts for c in ast.walk(s))
+
         for n in nodes_in(run, ast.If):
             t = ctx.X.value_at(run, n.test)
-            is_user = any(s[0] == "cmp" and s[1] == "==" and (("global", "ropt.enums.OptimizerExitCode.USER_ABORT") in (s[2], s[3])) for s in subterms(t))
-            calls_abort = any(isinstance(c, ast.Call) and isinstance(c.func, ast.Attribute) and c.func.attr == "abort" for s in n.body for c in ast.walk(s))
-            if is_user and calls_abort:
+            cm = [s for s in subterms(t) if s[0] == "cmp" and s[1] in ("==", "!=") and UA in (s[2], s[3])]
+            if not cm or t[0] != "cmp":
+                continue
+            if cm[0][1] == "==":
+                calls_abort = has_abort(n.body)
+            else:
+                # `if code != USER_ABORT: <leave>` followed by the latch, or the latch in the else branch
+                calls_abort = has_abort(n.orelse) and not has_abort(n.body)
+                if not calls_abort and always_exits(n.body) and not has_abort(n.body):
+                    blk = parent(n)
+                    for fld in ("body", "orelse", "finalbody"):
+                        lst = getattr(blk, fld, None)
+                        if isinstance(lst, list) and any(n is x for x in lst):
+                            calls_abort = has_abort(lst[[i for i, x in enumerate(lst) if x is n][0] + 1:])
+                    if isinstance(blk, ast.ExceptHandler):
+                        calls_abort = calls_abort or has_abort(blk.body[[i for i, x in enumerate(blk.body) if x is n][0] + 1:])
+            if calls_abort:
                 aborts.append(n)
         if not aborts:
             res.add(run, run.node, "the step calls plan.abort() when its exit code is USER_ABORT", False,
